@@ -362,6 +362,18 @@ theorem C11_store_ops_never_hang_partial (v4 : Bool) (ops : List GOp) (op : GOp)
     g.p.fat.size + 6 * opCost op ≤ MAXREG + 1 → NH (gstep g op) :=
   store_ops_never_hang v4 ops op
 
+
+/-- **the store machine is total on reachable states**: both halves together — a value or an error, never a
+panic exit and never a hang exit (partial with respect to the property for the same reasons as the two
+halves: store machine, well-formed states, room inside the sector-number range) -/
+theorem C11_store_ops_total_partial (v4 : Bool) (ops : List GOp) (op : GOp) :
+    let g0 : G := { p := Phys.create v4, L := fun _ => 0 }
+    WritesInRange g0 ops → MiniBounded g0 ops →
+    let g := grun g0 ops
+    g.p.fat.size + 6 * opCost op ≤ MAXREG + 1 →
+    (∃ g', gstep g op = .ok g') ∨ (∃ k, gstep g op = .err k) :=
+  store_ops_total v4 ops op
+
 /-- the premise is met on a fresh file by any write of a buffer that is not astronomically long, and by any resize -/
 example (bs : Bytes) (h : bs.length ≤ 1000000) :
     (Phys.create false).fat.size + 6 * opCost (.write 1 0 bs) ≤ MAXREG + 1 ∧
